@@ -712,26 +712,30 @@ theorem GOK.fields_reg {g : Grammar} (h : GOK g) (n : Nat)
   rw [succs_concrete hc]
   exact hs
 
+theorem eraseList_eq_map : ∀ (vs : List Val), Val.eraseList vs = vs.map Val.erase
+  | [] => rfl
+  | v :: vs => by rw [Val.eraseList, eraseList_eq_map vs]; rfl
+
 def CompleteP (g : Grammar) (fuel : Nat) : Prop :=
   (∀ budget ty deps v, fuelOK g fuel budget ty = true → fcTy ty = true →
     (∀ s ∈ explode ty, s ∈ g.reg.allNodes) → wt g deps ty v = true → v.depth ≤ budget →
-    v.erase = v → v ∈ langTy g fuel budget ty) ∧
+    v.erase ∈ langTy g fuel budget ty) ∧
   (∀ budget ts vs, fuelOKs g fuel budget ts = true → fcTys ts = true →
     (∀ s ∈ explodeList ts, s ∈ g.reg.allNodes) →
     All2 (fun t v => ∃ deps, wt g deps t v = true) ts vs → Val.depthList vs ≤ budget →
-    Val.eraseList vs = vs → vs ∈ cartesian (langTys g fuel budget ts)) ∧
+    Val.eraseList vs ∈ cartesian (langTys g fuel budget ts)) ∧
   (∀ budget ts t deps v, fuelOKs g fuel budget ts = true → fcTys ts = true →
     (∀ s ∈ explodeList ts, s ∈ g.reg.allNodes) → t ∈ ts → wt g deps t v = true →
-    v.depth ≤ budget → v.erase = v → v ∈ (langTys g fuel budget ts).flatten)
+    v.depth ≤ budget → v.erase ∈ (langTys g fuel budget ts).flatten)
 
 theorem completeP_zero (g : Grammar) : CompleteP g 0 := by
   refine ⟨?_, ?_, ?_⟩
   · intro budget ty deps v h; simp [fuelOK] at h
-  · intro budget ts vs h _ _ hall _ _
+  · intro budget ts vs h _ _ hall _
     cases ts with
     | nil =>
       cases vs with
-      | nil => simp [langTys, cartesian]
+      | nil => simp [langTys, cartesian, Val.eraseList]
       | cons _ _ => exact hall.elim
     | cons t ts => simp [fuelOKs] at h
   · intro budget ts t deps v h _ _ ht
@@ -743,12 +747,12 @@ theorem complete_tys_cart (g : Grammar) (fuel : Nat) (ih : CompleteP g fuel) :
     ∀ budget ts vs, fuelOKs g (fuel + 1) budget ts = true → fcTys ts = true →
     (∀ s ∈ explodeList ts, s ∈ g.reg.allNodes) →
     All2 (fun t v => ∃ deps, wt g deps t v = true) ts vs → Val.depthList vs ≤ budget →
-    Val.eraseList vs = vs → vs ∈ cartesian (langTys g (fuel + 1) budget ts) := by
-  intro budget ts vs hok hfc hreg hall hd he
+    Val.eraseList vs ∈ cartesian (langTys g (fuel + 1) budget ts) := by
+  intro budget ts vs hok hfc hreg hall hd
   cases ts with
   | nil =>
     cases vs with
-    | nil => simp [langTys, cartesian]
+    | nil => simp [langTys, cartesian, Val.eraseList]
     | cons _ _ => exact hall.elim
   | cons t ts =>
     cases vs with
@@ -757,19 +761,18 @@ theorem complete_tys_cart (g : Grammar) (fuel : Nat) (ih : CompleteP g fuel) :
       rw [fuelOKs, Bool.and_eq_true] at hok
       rw [fcTys, Bool.and_eq_true] at hfc
       rw [Val.depthList] at hd
-      rw [Val.eraseList, List.cons.injEq] at he
       obtain ⟨deps, hx⟩ := hall.1
-      rw [langTys, mem_cartesian]
+      rw [langTys, Val.eraseList, mem_cartesian]
       refine ⟨ih.1 budget t deps x hok.1 hfc.1
-          (fun s hs => hreg s (by simp [explodeList, hs])) hx (by omega) he.1, ?_⟩
+          (fun s hs => hreg s (by simp [explodeList, hs])) hx (by omega), ?_⟩
       exact (mem_cartesian _ _).1 (ih.2.1 budget ts rest hok.2 hfc.2
-        (fun s hs => hreg s (by simp [explodeList, hs])) hall.2 (by omega) he.2)
+        (fun s hs => hreg s (by simp [explodeList, hs])) hall.2 (by omega))
 
 theorem complete_tys_flat (g : Grammar) (fuel : Nat) (ih : CompleteP g fuel) :
     ∀ budget ts t deps v, fuelOKs g (fuel + 1) budget ts = true → fcTys ts = true →
     (∀ s ∈ explodeList ts, s ∈ g.reg.allNodes) → t ∈ ts → wt g deps t v = true →
-    v.depth ≤ budget → v.erase = v → v ∈ (langTys g (fuel + 1) budget ts).flatten := by
-  intro budget ts t deps v hok hfc hreg ht hw hd he
+    v.depth ≤ budget → v.erase ∈ (langTys g (fuel + 1) budget ts).flatten := by
+  intro budget ts t deps v hok hfc hreg ht hw hd
   cases ts with
   | nil => cases ht
   | cons t' ts =>
@@ -778,15 +781,15 @@ theorem complete_tys_flat (g : Grammar) (fuel : Nat) (ih : CompleteP g fuel) :
     rw [langTys, List.flatten_cons, List.mem_append]
     rcases List.mem_cons.1 ht with rfl | ht
     · exact Or.inl (ih.1 budget t deps v hok.1 hfc.1
-        (fun s hs => hreg s (by simp [explodeList, hs])) hw hd he)
+        (fun s hs => hreg s (by simp [explodeList, hs])) hw hd)
     · exact Or.inr (ih.2.2 budget ts t deps v hok.2 hfc.2
-        (fun s hs => hreg s (by simp [explodeList, hs])) ht hw hd he)
+        (fun s hs => hreg s (by simp [explodeList, hs])) ht hw hd)
 
 theorem complete_ty (g : Grammar) (hg : GOK g) (fuel : Nat) (ih : CompleteP g fuel) :
     ∀ budget ty deps v, fuelOK g (fuel + 1) budget ty = true → fcTy ty = true →
     (∀ s ∈ explode ty, s ∈ g.reg.allNodes) → wt g deps ty v = true → v.depth ≤ budget →
-    v.erase = v → v ∈ langTy g (fuel + 1) budget ty := by
-  intro budget ty deps v hok hfc hreg hw hd he
+    v.erase ∈ langTy g (fuel + 1) budget ty := by
+  intro budget ty deps v hok hfc hreg hw hd
   cases ty with
   | int => simp [fcTy] at hfc
   | float => simp [fcTy] at hfc
@@ -795,7 +798,7 @@ theorem complete_ty (g : Grammar) (hg : GOK g) (fuel : Nat) (ih : CompleteP g fu
   | bool =>
     cases v <;> simp [wt] at hw
     rename_i b
-    cases b <;> simp [langTy]
+    cases b <;> simp [langTy, Val.erase]
   | tuple ts =>
     cases v <;> try (simp [wt] at hw; done)
     rename_i vs
@@ -803,26 +806,22 @@ theorem complete_ty (g : Grammar) (hg : GOK g) (fuel : Nat) (ih : CompleteP g fu
     rw [fuelOK] at hok
     rw [fcTy] at hfc
     rw [Val.depth] at hd
-    rw [Val.erase, Val.tuple.injEq] at he
-    simp only [langTy, List.mem_map]
-    exact ⟨vs, ih.2.1 budget ts vs hok hfc (by simpa [explode] using hreg)
-      (all2_of_wtTuple g ts vs hw) hd he, rfl⟩
+    simp only [langTy, List.mem_map, Val.erase]
+    exact ⟨_, ih.2.1 budget ts vs hok hfc (by simpa [explode] using hreg)
+      (all2_of_wtTuple g ts vs hw) hd, rfl⟩
   | union ts =>
     rw [wt] at hw
     obtain ⟨t, ht, hwt⟩ := wtUnion_elim g deps v ts hw
     rw [fuelOK] at hok
     rw [fcTy] at hfc
     simp only [langTy, mem_dedupVals]
-    exact ih.2.2 budget ts t deps v hok hfc (by simpa [explode] using hreg) ht hwt hd he
+    exact ih.2.2 budget ts t deps v hok hfc (by simpa [explode] using hreg) ht hwt hd
   | cls n =>
     cases v <;> try (simp [wt] at hw; done)
     rename_i c d e args
     rw [wt] at hw
     simp only [Bool.and_eq_true, Bool.not_eq_true'] at hw
     obtain ⟨⟨⟨hconc, hcreg⟩, hprod⟩, hfields⟩ := hw
-    rw [Val.erase, Val.node.injEq] at he
-    obtain ⟨_, hd0, he0, hargs⟩ := he
-    subst hd0; subst he0
     have hn : Sym.cls n ∈ g.reg.allNodes := hreg _ (by simp [explode])
     have hnc : g.reg.allNodes.contains (Sym.cls n) = true := by simpa using hn
     simp only [fuelOK, hnc, Bool.not_true, Bool.false_eq_true, if_false] at hok
@@ -840,12 +839,12 @@ theorem complete_ty (g : Grammar) (hg : GOK g) (fuel : Nat) (ih : CompleteP g fu
         have hconc' : (g.spec.classes.getD n default).abstract = false := hconc
         rw [hconc'] at this; cases this
       · obtain ⟨p, hp, hpc⟩ := List.any_eq_true.1 hany
-        have hwp : wt g deps (.cls p) (.node c 0 0 args) = true := by
+        have hwp : wt g deps (.cls p) (.node c d e args) = true := by
           rw [wt]
           simp only [Bool.and_eq_true, Bool.not_eq_true']
           exact ⟨⟨⟨hconc, hcreg⟩, isProdOf_mono g _ p c hpc⟩, hfields⟩
         exact ih.2.2 budget _ (.cls p) deps _ hok (fcTys_cls prods) (hg.prods_reg n prods hn ha)
-          (List.mem_map.2 ⟨p, hp, rfl⟩) hwp hd (by rw [Val.erase, hargs])
+          (List.mem_map.2 ⟨p, hp, rfl⟩) hwp hd
     | none =>
       rw [ha] at hok hprod
       simp only
@@ -859,9 +858,9 @@ theorem complete_ty (g : Grammar) (hg : GOK g) (fuel : Nat) (ih : CompleteP g fu
       | zero => omega
       | succ b =>
         simp only at hok ⊢
-        simp only [List.mem_map]
-        exact ⟨args, ih.2.1 b _ args hok (fcGrammar_fields g hg.fc n) (hg.fields_reg n hn ha)
-          (all2_of_wtFields g _ args [] hfields) (by omega) hargs, rfl⟩
+        simp only [List.mem_map, Val.erase]
+        exact ⟨_, ih.2.1 b _ args hok (fcGrammar_fields g hg.fc n) (hg.fields_reg n hn ha)
+          (all2_of_wtFields g _ args [] hfields) (by omega), rfl⟩
   | ann base mh =>
     rw [wt, Bool.and_eq_true] at hw
     obtain ⟨hwb, hs⟩ := hw
@@ -872,34 +871,34 @@ theorem complete_ty (g : Grammar) (hg : GOK g) (fuel : Nat) (ih : CompleteP g fu
       cases v <;> simp [wt] at hwb
       rename_i i
       simp only [sat, decide_eq_true_eq] at hs
-      simp only [langTy, List.mem_map, mem_intsFromTo]
+      simp only [langTy, List.mem_map, mem_intsFromTo, Val.erase]
       exact ⟨i, by omega, rfl⟩
     · -- intList
       rename_i xs
       cases v <;> simp [wt] at hwb
       rename_i i
       simp only [sat] at hs
-      simp only [langTy, mem_dedupVals, List.mem_map]
+      simp only [langTy, mem_dedupVals, List.mem_map, Val.erase]
       exact ⟨i, by simpa using hs, rfl⟩
     · -- varRange
       rename_i opts
       cases v <;> simp [wt] at hwb
       rename_i x
       simp only [sat] at hs
-      simp only [langTy, mem_dedupVals, List.mem_map]
+      simp only [langTy, mem_dedupVals, List.mem_map, Val.erase]
       exact ⟨x, by simpa using hs, rfl⟩
     · -- strSize
       rename_i lo hi al
       cases v <;> simp [wt] at hwb
       rename_i x
       simp only [sat, Bool.and_eq_true, decide_eq_true_eq] at hs
-      simp only [langTy, mem_dedupVals, List.mem_map, List.mem_flatMap, mem_rangeFromTo]
+      simp only [langTy, mem_dedupVals, List.mem_map, List.mem_flatMap, mem_rangeFromTo, Val.erase]
       exact ⟨x, ⟨x.length, hs.1, stringsOfLen_complete al _ x rfl hs.2⟩, rfl⟩
     · -- interval
       rename_i mn mx top
       obtain ⟨a, b, rfl⟩ := wt_intpair g deps v hwb
       simp only [sat, decide_eq_true_eq] at hs
-      simp only [langTy, List.mem_flatMap, List.mem_map, mem_intsFromTo]
+      simp only [langTy, List.mem_flatMap, List.mem_map, mem_intsFromTo, Val.erase, Val.eraseList]
       refine ⟨b - a, by omega, a, by omega, ?_⟩
       have : a + (b - a) = b := by omega
       rw [this]
@@ -908,17 +907,15 @@ theorem complete_ty (g : Grammar) (hg : GOK g) (fuel : Nat) (ih : CompleteP g fu
       cases v <;> try (simp [wt] at hwb; done)
       rename_i d e vs
       rw [wt] at hwb
-      rw [Val.erase, Val.list.injEq] at he
-      obtain ⟨hd0, he0, hvs⟩ := he
-      subst hd0; subst he0
       simp only [sat, decide_eq_true_eq] at hs
       simp only [fuelOK] at hok
       rw [Val.depth] at hd
-      simp only [langTy, List.mem_flatMap, List.mem_map, mem_rangeFromTo, mem_listsOfLen]
-      refine ⟨vs.length, hs, vs, ⟨rfl, fun x hx => ?_⟩, rfl⟩
+      simp only [langTy, List.mem_flatMap, List.mem_map, mem_rangeFromTo, mem_listsOfLen, Val.erase]
+      refine ⟨vs.length, hs, _, ⟨by rw [eraseList_eq_map, List.length_map], fun y hy => ?_⟩, rfl⟩
+      rw [eraseList_eq_map, List.mem_map] at hy
+      obtain ⟨x, hx, rfl⟩ := hy
       exact ih.1 budget t [] x hok hfc (by simpa [explode] using hreg)
         (forall_of_wtAll g t vs hwb x hx) ((depthList_le budget vs).1 hd x hx)
-        ((eraseList_eq vs).1 hvs x hx)
     · cases hfc
 
 theorem completeP_all (g : Grammar) (hg : GOK g) : ∀ fuel, CompleteP g fuel
@@ -926,6 +923,30 @@ theorem completeP_all (g : Grammar) (hg : GOK g) : ∀ fuel, CompleteP g fuel
   | fuel + 1 =>
     have ih := completeP_all g hg fuel
     ⟨complete_ty g hg fuel ih, complete_tys_cart g fuel ih, complete_tys_flat g fuel ih⟩
+
+mutual
+theorem depth_erase : ∀ (v : Val), v.erase.depth = v.depth
+  | .int _ | .float | .str _ | .bool _ | .foreign _ => by simp [Val.erase]
+  | .node c d e args => by rw [Val.erase, Val.depth, Val.depth, depthList_erase args]
+  | .list d e vs => by rw [Val.erase, Val.depth, Val.depth, depthList_erase vs]
+  | .tuple vs => by rw [Val.erase, Val.depth, Val.depth, depthList_erase vs]
+theorem depthList_erase : ∀ (vs : List Val), Val.depthList (Val.eraseList vs) = Val.depthList vs
+  | [] => by rw [Val.eraseList]
+  | v :: vs => by rw [Val.eraseList, Val.depthList, Val.depthList, depth_erase v, depthList_erase vs]
+end
+
+mutual
+theorem noEmpty_erase : ∀ (v : Val), NoEmptyList v.erase = NoEmptyList v
+  | .int _ | .float | .str _ | .bool _ | .foreign _ => by simp [Val.erase]
+  | .node c d e args => by rw [Val.erase, NoEmptyList, NoEmptyList, noEmptys_erase args]
+  | .list d e vs => by
+    rw [Val.erase, NoEmptyList, NoEmptyList, noEmptys_erase vs]
+    cases vs <;> simp [Val.eraseList]
+  | .tuple vs => by rw [Val.erase, NoEmptyList, NoEmptyList, noEmptys_erase vs]
+theorem noEmptys_erase : ∀ (vs : List Val), NoEmptyLists (Val.eraseList vs) = NoEmptyLists vs
+  | [] => by rw [Val.eraseList]
+  | v :: vs => by rw [Val.eraseList, NoEmptyLists, NoEmptyLists, noEmpty_erase v, noEmptys_erase vs]
+end
 
 /-! ### Enough fuel exists -/
 
@@ -1121,5 +1142,613 @@ end
 theorem fcGrammar_finiteChoice (g : Grammar) (h : fcGrammar g = true) : finiteChoice g = true := by
   simp only [fcGrammar, finiteChoice, List.all_eq_true] at h ⊢
   exact fun c hc f hf => fcTy_finiteChoice _ (h c hc f hf)
+
+/-! ### Scripts that steer a computation -/
+
+/-- From ANY state whose scripted source still has `draws ++ rest` to read (metahandler draws
+taken from that source), `m` returns `a`, consumes exactly `draws` and changes nothing else. -/
+def Produces {α : Type} (m : SynM α) (draws : List Nat) (a : α) : Prop :=
+  ∀ (s : SynSt) (ds : List Nat) (pos : Nat) (rest : List Nat),
+    s.src = .scripted ⟨ds, pos⟩ → s.metaFromGenes = false → ds.drop pos = draws ++ rest →
+    m s = .ok a { s with src := .scripted ⟨ds, pos + draws.length⟩ }
+
+theorem prod_pure {α : Type} (a : α) : Produces (pure a : SynM α) [] a := by
+  intro s ds pos rest hs _ _
+  rw [SynM.pure_def]
+  obtain ⟨src, ex, dna, p, m⟩ := s
+  simp only at hs
+  subst hs
+  rfl
+
+theorem prod_bind {α β : Type} {m : SynM α} {f : α → SynM β} {d1 d2 : List Nat} {a : α} {b : β}
+    (h1 : Produces m d1 a) (h2 : Produces (f a) d2 b) : Produces (m >>= f) (d1 ++ d2) b := by
+  intro s ds pos rest hs hm hd
+  rw [SynM.bind_def, h1 s ds pos (d2 ++ rest) hs hm (by rw [hd, List.append_assoc])]
+  simp only
+  refine (h2 { s with src := .scripted ⟨ds, pos + d1.length⟩ } ds (pos + d1.length) rest rfl hm (by
+    rw [← List.drop_drop, hd, List.append_assoc, List.drop_left])).trans ?_
+  simp [List.length_append, Nat.add_assoc]
+
+theorem prod_map {α β : Type} {m : SynM α} {d : List Nat} {a : α} (f : α → β)
+    (h : Produces m d a) : Produces (do let x ← m; Pure.pure (f x) : SynM β) d (f a) := by
+  have := prod_bind (f := fun x => (Pure.pure (f x) : SynM β)) h (prod_pure (f a))
+  simpa using this
+
+theorem prod_randint (lo hi x : Int) (h1 : lo ≤ x) (h2 : x ≤ hi) :
+    Produces (randintM lo hi) [(x - lo).toNat] x := by
+  intro s ds pos rest hs hm hd
+  have hget : ds.getD pos 0 = (x - lo).toNat := by
+    rw [List.getD_eq_getElem?_getD]
+    have : (ds.drop pos)[0]? = some (x - lo).toNat := by rw [hd]; rfl
+    rw [List.getElem?_drop] at this
+    simp only [Nat.add_zero] at this
+    rw [this]; rfl
+  have hval : lo + ((x - lo).toNat : Int) % (hi - lo + 1) = x := by
+    rw [Int.toNat_of_nonneg (by omega), Int.emod_eq_of_lt (by omega) (by omega)]; omega
+  unfold randintM
+  rw [hm]
+  simp only [Bool.false_eq_true, if_false]
+  unfold rawRandintM
+  rw [if_neg (by omega)]
+  simp only [hs, hm, AnySrc.randint, scriptedRandint, Script.next, hget, hval, List.length_singleton]
+
+theorem prod_choiceIdx (n i : Nat) (h : i < n) : Produces (choiceIdxM n) [i] i := by
+  unfold choiceIdxM
+  rw [if_neg (by omega)]
+  have := prod_map Int.toNat (prod_randint 0 ((n : Int) - 1) (i : Int) (by omega) (by omega))
+  simpa using this
+
+theorem prod_listGet {α : Type} (xs : List α) (i : Nat) (x : α) (h : xs[i]? = some x) :
+    Produces (listGetM xs i) [] x := by
+  unfold listGetM
+  rw [h]
+  exact prod_pure x
+
+/-- `random.choice`: any element can be chosen -/
+theorem prod_choice {α : Type} (xs : List α) (x : α) (h : x ∈ xs) :
+    ∃ i, Produces (do let i ← choiceIdxM xs.length; listGetM xs i : SynM α) [i] x := by
+  obtain ⟨i, hi⟩ := List.getElem?_of_mem h
+  have hlt : i < xs.length := by
+    rcases Nat.lt_or_ge i xs.length with h | h
+    · exact h
+    · rw [List.getElem?_eq_none h] at hi; cases hi
+  exact ⟨i, by simpa using prod_bind (prod_choiceIdx xs.length i hlt) (prod_listGet xs i x hi)⟩
+
+/-- grow's `choose_production_alternatives`: any alternative that fits can be chosen -/
+theorem prod_chooseProd_grow (g : Grammar) (D : Nat) (key : Ty) (alts : List Ty) (ctx : Ctx) (t : Ty)
+    (ht : t ∈ alts) (hfit : fits g ⟨.grow, D⟩ ctx t = true) :
+    ∃ i, Produces (chooseProd g ⟨.grow, D⟩ key alts ctx) [i] t := by
+  have hne : alts.isEmpty = false := by
+    cases alts with
+    | nil => cases ht
+    | cons _ _ => rfl
+  obtain ⟨i, hi⟩ := prod_choice (alts.filter (fits g ⟨.grow, D⟩ ctx)) t
+    (List.mem_filter.2 ⟨ht, hfit⟩)
+  refine ⟨i, ?_⟩
+  unfold chooseProd
+  simp only [hne, Bool.false_eq_true, if_false]
+  exact hi
+
+theorem prod_decBool_grow (D : Nat) (b : Bool) :
+    Produces (decBoolM ⟨.grow, D⟩) [if b then 0 else 1] b := by
+  unfold decBoolM
+  simp only
+  have := prod_map (fun i : Nat => decide (i = 0)) (prod_choiceIdx 2 (if b then 0 else 1) (by split <;> omega))
+  cases b <;> simpa using this
+
+theorem prod_genChars (al : List String) : ∀ (k : Nat) (s : String), s ∈ stringsOfLen al k →
+    ∃ draws, Produces (genChars al k) draws s
+  | 0, s, h => by
+    simp only [stringsOfLen, List.mem_singleton] at h
+    subst h
+    exact ⟨[], by rw [genChars]; exact prod_pure _⟩
+  | k + 1, s, h => by
+    simp only [stringsOfLen, List.mem_flatMap, List.mem_map] at h
+    obtain ⟨c, hc, rest, hr, rfl⟩ := h
+    obtain ⟨i, hi⟩ := List.getElem?_of_mem hc
+    have hlt : i < al.length := by
+      rcases Nat.lt_or_ge i al.length with h | h
+      · exact h
+      · rw [List.getElem?_eq_none h] at hi; cases hi
+    obtain ⟨dr, hdr⟩ := prod_genChars al k rest hr
+    refine ⟨[i] ++ ([] ++ (dr ++ [])), ?_⟩
+    rw [genChars]
+    exact prod_bind (prod_choiceIdx al.length i hlt)
+      (prod_bind (prod_listGet al i c hi) (prod_bind hdr (prod_pure _)))
+
+theorem erase_setCtx (v : Val) (d e : Nat) : (v.setCtx d e).erase = v.erase := by
+  cases v <;> simp [Val.setCtx, Val.erase]
+
+/-- the retry loop, when the first attempt succeeds -/
+theorem prod_createAbstract (g : Grammar) (dec : Decider) (f n : Nat) (prods : List Nat) (ctx : Ctx)
+    (rule : Ty) (d1 d2 : List Nat) (v : Val) (hne : prods ≠ [])
+    (h1 : Produces (chooseProd g dec (.cls n) (prods.map Ty.cls) ctx) d1 rule)
+    (h2 : Produces (createNode g dec f rule ⟨ctx.depth, ctx.exp + 1⟩ []) d2 v) :
+    Produces (createAbstract g dec (f + 1) n prods ctx) (d1 ++ d2) (v.setCtx ctx.depth ctx.exp) := by
+  intro s ds pos rest hs hm hd
+  rw [createAbstract]
+  have hemp : prods.isEmpty = false := by cases prods <;> simp_all
+  simp only [hemp, Bool.false_eq_true, if_false]
+  rw [h1 s ds pos (d2 ++ rest) hs hm (by rw [hd, List.append_assoc])]
+  simp only
+  rw [h2 { s with src := .scripted ⟨ds, pos + d1.length⟩ } ds (pos + d1.length) rest rfl hm (by
+    rw [← List.drop_drop, hd, List.append_assoc, List.drop_left])]
+  simp [List.length_append, Nat.add_assoc]
+
+/-! ### Steering `createNode` (grow) to a given program -/
+
+/-- with fuel at least `F`, at context `ctx` and for any sibling values, some script makes grow
+creation of type `ty` return `v` up to synthesis metadata -/
+def Steer (g : Grammar) (D F : Nat) (ctx : Ctx) (ty : Ty) (v : Val) : Prop :=
+  ∀ deps, ∃ draws v', (∀ f, F ≤ f → Produces (createNode g ⟨.grow, D⟩ f ty ctx deps) draws v') ∧
+    v'.erase = v
+
+theorem Steer.mono {g : Grammar} {D F F' : Nat} {ctx : Ctx} {ty : Ty} {v : Val}
+    (h : Steer g D F ctx ty v) (hle : F ≤ F') : Steer g D F' ctx ty v := by
+  intro deps
+  obtain ⟨draws, v', h1, h2⟩ := h deps
+  exact ⟨draws, v', fun f hf => h1 f (Nat.le_trans hle hf), h2⟩
+
+theorem steer_forall_max (g : Grammar) (D : Nat) (ctx : Ctx) (t : Ty) : ∀ (vs : List Val),
+    (∀ x ∈ vs, ∃ F, Steer g D F ctx t x) → ∃ F, ∀ x ∈ vs, Steer g D F ctx t x
+  | [], _ => ⟨0, fun _ h => by cases h⟩
+  | v :: vs, h => by
+    obtain ⟨F1, h1⟩ := h v List.mem_cons_self
+    obtain ⟨F2, h2⟩ := steer_forall_max g D ctx t vs fun x hx => h x (List.mem_cons_of_mem _ hx)
+    refine ⟨max F1 F2, fun x hx => ?_⟩
+    rcases List.mem_cons.1 hx with rfl | hx
+    · exact h1.mono (Nat.le_max_left _ _)
+    · exact (h2 x hx).mono (Nat.le_max_right _ _)
+
+theorem prod_createTuple (g : Grammar) (D F : Nat) (ctx : Ctx) : ∀ (ts : List Ty) (vs : List Val),
+    All2 (Steer g D F ctx) ts vs →
+    ∃ draws vs', (∀ f, F + ts.length + 1 ≤ f → Produces (createTuple g ⟨.grow, D⟩ f ts ctx) draws vs') ∧
+      Val.eraseList vs' = vs
+  | [], [], _ => by
+    refine ⟨[], [], fun f hf => ?_, rfl⟩
+    obtain ⟨f', rfl⟩ : ∃ f', f = f' + 1 := ⟨f - 1, by omega⟩
+    rw [createTuple]; exact prod_pure _
+  | [], _ :: _, h => h.elim
+  | _ :: _, [], h => h.elim
+  | t :: ts, v :: vs, h => by
+    obtain ⟨d1, v', hv', he⟩ := h.1 []
+    obtain ⟨d2, vs', hvs', hes⟩ := prod_createTuple g D F ctx ts vs h.2
+    refine ⟨d1 ++ (d2 ++ []), v' :: vs', fun f hf => ?_, by rw [Val.eraseList, he, hes]⟩
+    obtain ⟨f', rfl⟩ : ∃ f', f = f' + 1 := ⟨f - 1, by simp only [List.length_cons] at hf; omega⟩
+    simp only [List.length_cons] at hf
+    rw [createTuple]
+    exact prod_bind (hv' f' (by omega)) (prod_bind (hvs' f' (by omega)) (prod_pure _))
+
+theorem prod_createFields (g : Grammar) (D F : Nat) (nctx : Ctx) :
+    ∀ (fs : List (String × Ty)) (vs : List Val) (deps : List (String × Val)),
+    All2 (Steer g D F nctx) (fs.map (·.2)) vs →
+    ∃ draws vs', (∀ f, F + fs.length + 1 ≤ f →
+        Produces (createFields g ⟨.grow, D⟩ f fs nctx deps) draws vs') ∧
+      Val.eraseList vs' = vs
+  | [], [], _, _ => by
+    refine ⟨[], [], fun f hf => ?_, rfl⟩
+    obtain ⟨f', rfl⟩ : ∃ f', f = f' + 1 := ⟨f - 1, by omega⟩
+    rw [createFields]; exact prod_pure _
+  | [], _ :: _, _, h => h.elim
+  | _ :: _, [], _, h => h.elim
+  | (name, t) :: fs, v :: vs, deps, h => by
+    obtain ⟨d1, v', hv', he⟩ := h.1 deps
+    obtain ⟨d2, vs', hvs', hes⟩ := prod_createFields g D F nctx fs vs (deps ++ [(name, v')]) h.2
+    refine ⟨d1 ++ (d2 ++ []), v' :: vs', fun f hf => ?_, by rw [Val.eraseList, he, hes]⟩
+    obtain ⟨f', rfl⟩ : ∃ f', f = f' + 1 := ⟨f - 1, by simp only [List.length_cons] at hf; omega⟩
+    simp only [List.length_cons] at hf
+    rw [createFields]
+    exact prod_bind (hv' f' (by omega)) (prod_bind (hvs' f' (by omega)) (prod_pure _))
+
+theorem prod_createElems (g : Grammar) (D F : Nat) (nctx : Ctx) (t : Ty)
+    (deps : List (String × Val)) : ∀ (vs : List Val),
+    (∀ x ∈ vs, Steer g D F nctx t x) →
+    ∃ draws vs', (∀ f, F + vs.length + 1 ≤ f →
+        Produces (createElems g ⟨.grow, D⟩ f t nctx deps vs.length) draws vs') ∧
+      Val.eraseList vs' = vs
+  | [], _ => by
+    refine ⟨[], [], fun f hf => ?_, rfl⟩
+    obtain ⟨f', rfl⟩ : ∃ f', f = f' + 1 := ⟨f - 1, by omega⟩
+    rw [List.length_nil, createElems]; exact prod_pure _
+  | v :: vs, h => by
+    obtain ⟨d1, v', hv', he⟩ := h v List.mem_cons_self deps
+    obtain ⟨d2, vs', hvs', hes⟩ := prod_createElems g D F nctx t deps vs
+      fun x hx => h x (List.mem_cons_of_mem _ hx)
+    refine ⟨d1 ++ (d2 ++ []), v' :: vs', fun f hf => ?_, by rw [Val.eraseList, he, hes]⟩
+    obtain ⟨f', rfl⟩ : ∃ f', f = f' + 1 := ⟨f - 1, by simp only [List.length_cons] at hf; omega⟩
+    simp only [List.length_cons] at hf ⊢
+    rw [createElems]
+    exact prod_bind (hv' f' (by omega)) (prod_bind (hvs' f' (by omega)) (prod_pure _))
+
+/-- what the completeness of grow creation needs of the analysed grammar: well-formedness, only
+abstract classes have productions, registration is closed, and the reported distance of a type is
+a LOWER bound of the depth of its programs without empty lists (`C05_dist_sound_partial`) -/
+structure GrowOK (g : Grammar) : Prop where
+  wf : GWF g
+  abs : altsAbstract g = true
+  closed : ClosedNodes g.spec g.reg
+  dist : ∀ ty v, Derives g.spec g.reg ty v → NoEmptyList v = true →
+    (∀ s ∈ explode ty, s ∈ g.reg.allNodes) → g.distOf ty ≤ v.depth
+
+theorem GrowOK.prods_reg {g : Grammar} (h : GrowOK g) (n : Nat) (prods : List Nat)
+    (hn : Sym.cls n ∈ g.reg.allNodes) (ha : g.altsOf n = some prods) :
+    ∀ s ∈ explodeList (prods.map Ty.cls), s ∈ g.reg.allNodes := by
+  intro s hs
+  obtain ⟨t, ht, hs⟩ := mem_explodeList.1 hs
+  obtain ⟨p, hp, rfl⟩ := List.mem_map.1 ht
+  simp only [explode, List.mem_singleton] at hs
+  subst hs
+  apply h.closed _ hn
+  have ha' : getAlts g.reg.alts n = some prods := ha
+  rw [succs_abstract (altsAbstract_elim g h.abs n prods ha), ha']
+  exact List.mem_map.2 ⟨p, hp, rfl⟩
+
+theorem GrowOK.fields_reg {g : Grammar} (h : GrowOK g) (n : Nat)
+    (hn : Sym.cls n ∈ g.reg.allNodes) (ha : g.altsOf n = none) :
+    ∀ s ∈ explodeList ((g.cls n).fields.map (·.2)), s ∈ g.reg.allNodes := by
+  intro s hs
+  apply h.closed _ hn
+  have hc := h.wf.concrete n (by simpa using hn) ha
+  rw [succs_concrete hc]
+  exact hs
+
+def GrowP (g : Grammar) (D fuelL : Nat) : Prop :=
+  (∀ budget ty v, tyWF ty = true → (∀ s ∈ explode ty, s ∈ g.reg.allNodes) →
+    v ∈ langTy g fuelL budget ty → NoEmptyList v = true → ∀ ctx : Ctx, ctx.depth + v.depth ≤ D →
+    ∃ F, Steer g D F ctx ty v) ∧
+  (∀ budget ts vs, tysWF ts = true → (∀ s ∈ explodeList ts, s ∈ g.reg.allNodes) →
+    vs ∈ cartesian (langTys g fuelL budget ts) → NoEmptyLists vs = true →
+    ∀ ctx : Ctx, ctx.depth + Val.depthList vs ≤ D → ∃ F, All2 (Steer g D F ctx) ts vs) ∧
+  (∀ budget ts v, tysWF ts = true → (∀ s ∈ explodeList ts, s ∈ g.reg.allNodes) →
+    v ∈ (langTys g fuelL budget ts).flatten → NoEmptyList v = true →
+    ∀ ctx : Ctx, ctx.depth + v.depth ≤ D →
+    ∃ t ∈ ts, (∃ f', v ∈ langTy g f' budget t) ∧ ∃ F, Steer g D F ctx t v)
+
+theorem growP_zero (g : Grammar) (D : Nat) : GrowP g D 0 := by
+  refine ⟨?_, ?_, ?_⟩
+  · intro budget ty v _ _ h; simp [langTy] at h
+  · intro budget ts vs _ _ h _ ctx _
+    cases ts with
+    | nil => simp only [langTys, cartesian, List.mem_singleton] at h; subst h; exact ⟨0, trivial⟩
+    | cons t ts => simp [langTys, cartesian] at h
+  · intro budget ts v _ _ h
+    cases ts <;> simp [langTys] at h
+
+theorem all2_steer_mono {g : Grammar} {D F F' : Nat} {ctx : Ctx} (hle : F ≤ F') :
+    ∀ (ts : List Ty) (vs : List Val), All2 (Steer g D F ctx) ts vs → All2 (Steer g D F' ctx) ts vs :=
+  All2.imp (fun _ _ h => h.mono hle)
+
+theorem grow_tys_cart (g : Grammar) (D fuelL : Nat) (ih : GrowP g D fuelL) :
+    ∀ budget ts vs, tysWF ts = true → (∀ s ∈ explodeList ts, s ∈ g.reg.allNodes) →
+    vs ∈ cartesian (langTys g (fuelL + 1) budget ts) → NoEmptyLists vs = true →
+    ∀ ctx : Ctx, ctx.depth + Val.depthList vs ≤ D → ∃ F, All2 (Steer g D F ctx) ts vs := by
+  intro budget ts vs hts hreg h hne ctx hd
+  cases ts with
+  | nil =>
+    simp only [langTys, cartesian, List.mem_singleton] at h
+    subst h; exact ⟨0, trivial⟩
+  | cons t ts =>
+    rw [tysWF, Bool.and_eq_true] at hts
+    rw [langTys, mem_cartesian] at h
+    cases vs with
+    | nil => exact h.elim
+    | cons x rest =>
+      rw [NoEmptyLists, Bool.and_eq_true] at hne
+      rw [Val.depthList] at hd
+      obtain ⟨F1, h1⟩ := ih.1 budget t x hts.1 (fun s hs => hreg s (by simp [explodeList, hs]))
+        h.1 hne.1 ctx (by omega)
+      obtain ⟨F2, h2⟩ := ih.2.1 budget ts rest hts.2 (fun s hs => hreg s (by simp [explodeList, hs]))
+        ((mem_cartesian _ _).2 h.2) hne.2 ctx (by omega)
+      exact ⟨max F1 F2, h1.mono (Nat.le_max_left _ _),
+        all2_steer_mono (Nat.le_max_right _ _) ts rest h2⟩
+
+theorem grow_tys_flat (g : Grammar) (D fuelL : Nat) (ih : GrowP g D fuelL) :
+    ∀ budget ts v, tysWF ts = true → (∀ s ∈ explodeList ts, s ∈ g.reg.allNodes) →
+    v ∈ (langTys g (fuelL + 1) budget ts).flatten → NoEmptyList v = true →
+    ∀ ctx : Ctx, ctx.depth + v.depth ≤ D →
+    ∃ t ∈ ts, (∃ f', v ∈ langTy g f' budget t) ∧ ∃ F, Steer g D F ctx t v := by
+  intro budget ts v hts hreg h hne ctx hd
+  cases ts with
+  | nil => simp [langTys] at h
+  | cons t ts =>
+    rw [tysWF, Bool.and_eq_true] at hts
+    rw [langTys, List.flatten_cons, List.mem_append] at h
+    rcases h with h | h
+    · exact ⟨t, List.mem_cons_self, ⟨fuelL, h⟩,
+        ih.1 budget t v hts.1 (fun s hs => hreg s (by simp [explodeList, hs])) h hne ctx hd⟩
+    · obtain ⟨t', ht', hv⟩ := ih.2.2 budget ts v hts.2
+        (fun s hs => hreg s (by simp [explodeList, hs])) h hne ctx hd
+      exact ⟨t', List.mem_cons_of_mem _ ht', hv⟩
+
+theorem noEmptyLists_mem : ∀ (vs : List Val), NoEmptyLists vs = true → ∀ x ∈ vs, NoEmptyList x = true
+  | [], _, x, hx => by cases hx
+  | v :: vs, h, x, hx => by
+    rw [NoEmptyLists, Bool.and_eq_true] at h
+    rcases List.mem_cons.1 hx with rfl | hx
+    · exact h.1
+    · exact noEmptyLists_mem vs h.2 x hx
+
+theorem index_of_mem {α : Type} (xs : List α) (x : α) (h : x ∈ xs) :
+    ∃ i, i < xs.length ∧ xs[i]? = some x := by
+  obtain ⟨i, hi⟩ := List.getElem?_of_mem h
+  refine ⟨i, ?_, hi⟩
+  rcases Nat.lt_or_ge i xs.length with h | h
+  · exact h
+  · rw [List.getElem?_eq_none h] at hi; cases hi
+
+theorem succ_of_le {F f : Nat} (h : F + 1 ≤ f) : ∃ f', f = f' + 1 ∧ F ≤ f' := ⟨f - 1, by omega, by omega⟩
+
+theorem grow_ty (g : Grammar) (hg : GrowOK g) (D fuelL : Nat) (ih : GrowP g D fuelL) :
+    ∀ budget ty v, tyWF ty = true → (∀ s ∈ explode ty, s ∈ g.reg.allNodes) →
+    v ∈ langTy g (fuelL + 1) budget ty → NoEmptyList v = true →
+    ∀ ctx : Ctx, ctx.depth + v.depth ≤ D → ∃ F, Steer g D F ctx ty v := by
+  intro budget ty v hty hreg h hne ctx hd
+  cases ty with
+  | int => simp [langTy] at h
+  | float => simp [langTy] at h
+  | list t => simp [langTy] at h
+  | bool =>
+    have : ∃ b, v = .bool b := by
+      simp only [langTy, List.mem_cons, List.not_mem_nil, or_false] at h
+      rcases h with rfl | rfl <;> exact ⟨_, rfl⟩
+    obtain ⟨b, rfl⟩ := this
+    refine ⟨1, fun deps => ⟨[if b then 0 else 1], .bool b, fun f hf => ?_, rfl⟩⟩
+    obtain ⟨f', rfl, _⟩ := succ_of_le hf
+    rw [createNode]
+    exact prod_map Val.bool (prod_decBool_grow D b)
+  | str =>
+    simp only [langTy, List.mem_singleton] at h
+    subst h
+    refine ⟨1, fun deps => ⟨[], .str "", fun f hf => ?_, rfl⟩⟩
+    obtain ⟨f', rfl, _⟩ := succ_of_le hf
+    rw [createNode]
+    exact prod_pure _
+  | tuple ts =>
+    simp only [langTy, List.mem_map] at h
+    obtain ⟨vs, hvs, rfl⟩ := h
+    rw [tyWF] at hty
+    rw [NoEmptyList] at hne
+    rw [Val.depth] at hd
+    obtain ⟨F, hF⟩ := ih.2.1 budget ts vs hty (by simpa [explode] using hreg) hvs hne ctx hd
+    obtain ⟨draws, vs', hp, he⟩ := prod_createTuple g D F ctx ts vs hF
+    refine ⟨F + ts.length + 1 + 1, fun deps => ⟨draws, .tuple vs', fun f hf => ?_, by rw [Val.erase, he]⟩⟩
+    obtain ⟨f', rfl, hf'⟩ := succ_of_le hf
+    rw [createNode]
+    exact prod_map Val.tuple (hp f' hf')
+  | union ts =>
+    simp only [langTy, mem_dedupVals] at h
+    rw [tyWF] at hty
+    have hreg' : ∀ s ∈ explodeList ts, s ∈ g.reg.allNodes := by simpa [explode] using hreg
+    obtain ⟨t, ht, ⟨f0, hmem⟩, F, hF⟩ := ih.2.2 budget ts v hty hreg' h hne ctx hd
+    have hspec := (soundP_all g hg.wf f0).1 budget t v (tyWF_of_mem ts t ht hty) hmem
+    have hdist := hg.dist t v (hspec.2.2.2 hg.abs) hne
+      (fun s hs => hreg' s (mem_explodeList.2 ⟨t, ht, hs⟩))
+    have hfit : fits g ⟨.grow, D⟩ ctx t = true := (Depth.fits_iff g _ ctx t).2 (by simp only; omega)
+    obtain ⟨i, hi⟩ := prod_chooseProd_grow g D (.union ts) ts ctx t ht hfit
+    refine ⟨F + 1, fun deps => ?_⟩
+    obtain ⟨draws, v', hp, he⟩ := hF deps
+    refine ⟨[i] ++ (draws ++ []), v'.setCtx ctx.depth ctx.exp, fun f hf => ?_, by rw [erase_setCtx, he]⟩
+    obtain ⟨f', rfl, hf'⟩ := succ_of_le hf
+    rw [createNode]
+    exact prod_bind hi (prod_bind (hp f' hf') (prod_pure _))
+  | cls n =>
+    simp only [langTy] at h
+    split at h
+    · simp at h
+    rename_i hreg0
+    simp only [Bool.not_eq_true, Bool.not_eq_false'] at hreg0
+    have hn : Sym.cls n ∈ g.reg.allNodes := hreg _ (by simp [explode])
+    split at h
+    · rename_i prods ha
+      rw [mem_dedupVals] at h
+      have hne' : prods ≠ [] := by
+        rintro rfl
+        cases fuelL <;> simp [langTys] at h
+      obtain ⟨t, ht, ⟨f0, hmem⟩, F, hF⟩ := ih.2.2 budget _ v (tysWF_cls prods)
+        (hg.prods_reg n prods hn ha) h hne ⟨ctx.depth, ctx.exp + 1⟩ hd
+      obtain ⟨p, hp, rfl⟩ := List.mem_map.1 ht
+      have hspec := (soundP_all g hg.wf f0).1 budget (.cls p) v rfl hmem
+      have hdist := hg.dist (.cls p) v (hspec.2.2.2 hg.abs) hne
+        (fun s hs => hg.prods_reg n prods hn ha s (mem_explodeList.2 ⟨_, ht, hs⟩))
+      have hfit : fits g ⟨.grow, D⟩ ctx (.cls p) = true :=
+        (Depth.fits_iff g _ ctx _).2 (by simp only; omega)
+      obtain ⟨i, hi⟩ := prod_chooseProd_grow g D (.cls n) (prods.map Ty.cls) ctx (.cls p) ht hfit
+      refine ⟨F + 2, fun deps => ?_⟩
+      obtain ⟨draws, v', hpv, he⟩ := hF []
+      refine ⟨[i] ++ draws, v'.setCtx ctx.depth ctx.exp, fun f hf => ?_, by rw [erase_setCtx, he]⟩
+      obtain ⟨f', rfl, hf'⟩ := succ_of_le hf
+      obtain ⟨f'', rfl, hf''⟩ := succ_of_le hf'
+      rw [createNode]
+      simp only [hreg0, Bool.not_true, Bool.false_eq_true, if_false, ha]
+      exact prod_createAbstract g _ f'' n prods ctx (.cls p) [i] draws v' hne' hi (hpv f'' hf'')
+    · rename_i ha
+      split at h
+      · simp at h
+      rename_i b
+      simp only [List.mem_map] at h
+      obtain ⟨args, hargs, rfl⟩ := h
+      rw [NoEmptyList] at hne
+      rw [Val.depth] at hd
+      obtain ⟨F, hF⟩ := ih.2.1 b _ args (tysWF_fields _ _ (hg.wf.fields n)) (hg.fields_reg n hn ha)
+        hargs hne ⟨ctx.depth + 1, ctx.exp + 1⟩ (by simp only; omega)
+      obtain ⟨draws, args', hp, he⟩ := prod_createFields g D F _ (g.cls n).fields args [] hF
+      refine ⟨F + (g.cls n).fields.length + 1 + 1, fun deps => ⟨draws, .node n ctx.depth ctx.exp args',
+        fun f hf => ?_, by rw [Val.erase, he]⟩⟩
+      obtain ⟨f', rfl, hf'⟩ := succ_of_le hf
+      rw [createNode]
+      simp only [hreg0, Bool.not_true, Bool.false_eq_true, if_false, ha]
+      exact prod_map (fun a => Val.node n ctx.depth ctx.exp a) (hp f' hf')
+  | ann base mh =>
+    rw [tyWF, Bool.and_eq_true] at hty
+    simp only [langTy] at h
+    split at h
+    · -- intRange
+      rename_i lo hi
+      simp only [List.mem_map, mem_intsFromTo] at h
+      obtain ⟨i, hi', rfl⟩ := h
+      refine ⟨1, fun deps => ⟨[(i - lo).toNat], .int i, fun f hf => ?_, rfl⟩⟩
+      obtain ⟨f', rfl, _⟩ := succ_of_le hf
+      rw [createNode]
+      simp only [MH.isDep, Bool.false_eq_true, if_false]
+      exact prod_map Val.int (prod_randint lo hi i (by omega) (by omega))
+    · -- intList
+      rename_i xs
+      simp only [mem_dedupVals, List.mem_map] at h
+      obtain ⟨i, hi', rfl⟩ := h
+      obtain ⟨j, hlt, hj⟩ := index_of_mem xs i hi'
+      refine ⟨1, fun deps => ⟨[j] ++ ([] ++ []), .int i, fun f hf => ?_, rfl⟩⟩
+      obtain ⟨f', rfl, _⟩ := succ_of_le hf
+      rw [createNode]
+      simp only [MH.isDep, Bool.false_eq_true, if_false]
+      exact prod_bind (prod_choiceIdx xs.length j hlt) (prod_bind (prod_listGet xs j i hj) (prod_pure _))
+    · -- varRange
+      rename_i opts
+      simp only [mem_dedupVals, List.mem_map] at h
+      obtain ⟨x, hx, rfl⟩ := h
+      obtain ⟨j, hlt, hj⟩ := index_of_mem opts x hx
+      refine ⟨1, fun deps => ⟨[j] ++ ([] ++ []), .str x, fun f hf => ?_, rfl⟩⟩
+      obtain ⟨f', rfl, _⟩ := succ_of_le hf
+      rw [createNode]
+      simp only [MH.isDep, Bool.false_eq_true, if_false]
+      exact prod_bind (prod_choiceIdx opts.length j hlt) (prod_bind (prod_listGet opts j x hj) (prod_pure _))
+    · -- strSize
+      rename_i lo hi al
+      simp only [mem_dedupVals, List.mem_map, List.mem_flatMap, mem_rangeFromTo] at h
+      obtain ⟨x, ⟨k, hk, hx⟩, rfl⟩ := h
+      obtain ⟨dr, hdr⟩ := prod_genChars al k x hx
+      refine ⟨1, fun deps => ⟨[((k : Int) - (lo : Int)).toNat] ++ (dr ++ []), .str x, fun f hf => ?_, rfl⟩⟩
+      obtain ⟨f', rfl, _⟩ := succ_of_le hf
+      rw [createNode]
+      simp only [MH.isDep, Bool.false_eq_true, if_false]
+      refine prod_bind (prod_randint (lo : Int) (hi : Int) (k : Int) (by omega) (by omega)) ?_
+      rw [Int.toNat_natCast]
+      exact prod_bind hdr (prod_pure _)
+    · -- interval
+      rename_i mn mx top
+      simp only [List.mem_flatMap, List.mem_map, mem_intsFromTo] at h
+      obtain ⟨len, hlen, start, hstart, rfl⟩ := h
+      refine ⟨1, fun deps => ⟨[(len - mn).toNat] ++ ([(start - 0).toNat] ++ []),
+        .tuple [.int start, .int (start + len)], fun f hf => ?_, by simp [Val.erase, Val.eraseList]⟩⟩
+      obtain ⟨f', rfl, _⟩ := succ_of_le hf
+      rw [createNode]
+      simp only [MH.isDep, Bool.false_eq_true, if_false]
+      exact prod_bind (prod_randint mn mx len (by omega) (by omega))
+        (prod_bind (prod_randint 0 (top - len) start (by omega) (by omega)) (prod_pure _))
+    · -- listSize
+      rename_i lo hi t
+      simp only [List.mem_flatMap, List.mem_map, mem_rangeFromTo, mem_listsOfLen] at h
+      obtain ⟨k, hk, vs, ⟨hlen, hvs⟩, rfl⟩ := h
+      rw [tyWF] at hty
+      rw [NoEmptyList, Bool.and_eq_true] at hne
+      rw [Val.depth] at hd
+      obtain ⟨F, hF⟩ := steer_forall_max g D ⟨ctx.depth, ctx.exp + 1⟩ t vs (fun x hx =>
+        ih.1 budget t x hty.2 (by simpa [explode] using hreg) (hvs x hx)
+          (noEmptyLists_mem vs hne.2 x hx) ⟨ctx.depth, ctx.exp + 1⟩
+          (by have := (depthList_le _ vs).1 (Nat.le_refl _) x hx; simp only; omega))
+      refine ⟨F + vs.length + 1 + 1, fun deps => ?_⟩
+      obtain ⟨draws, vs', hp, he⟩ := prod_createElems g D F ⟨ctx.depth, ctx.exp + 1⟩ t deps vs hF
+      refine ⟨[((vs.length : Int) - (lo : Int)).toNat] ++ (draws ++ []), .list ctx.depth ctx.exp vs',
+        fun f hf => ?_, by rw [Val.erase, he]⟩
+      obtain ⟨f', rfl, hf'⟩ := succ_of_le hf
+      rw [createNode]
+      simp only [MH.isDep, Bool.false_eq_true, if_false]
+      refine prod_bind (prod_randint (lo : Int) (hi : Int) (vs.length : Int) (by omega) (by omega)) ?_
+      rw [Int.toNat_natCast]
+      exact prod_bind (hp f' hf') (prod_pure _)
+    · simp at h
+
+theorem growP_all (g : Grammar) (hg : GrowOK g) (D : Nat) : ∀ fuelL, GrowP g D fuelL
+  | 0 => growP_zero g D
+  | fuelL + 1 =>
+    have ih := growP_all g hg D fuelL
+    ⟨grow_ty g hg D fuelL ih, grow_tys_cart g D fuelL ih, grow_tys_flat g D fuelL ih⟩
+
+/-- a script, run from position 0 on an otherwise fresh state -/
+def scriptSt (draws : List Nat) : SynSt := { src := .scripted { draws := draws } }
+
+theorem steer_run {g : Grammar} {D F : Nat} {ctx : Ctx} {ty : Ty} {v : Val}
+    (h : Steer g D F ctx ty v) (deps : List (String × Val)) :
+    ∃ draws v', (∀ f, F ≤ f → createNode g ⟨.grow, D⟩ f ty ctx deps (scriptSt draws) =
+        .ok v' { src := .scripted ⟨draws, draws.length⟩ }) ∧ v'.erase = v := by
+  obtain ⟨draws, v', hp, he⟩ := h deps
+  refine ⟨draws, v', fun f hf => ?_, he⟩
+  have := hp f hf (scriptSt draws) draws 0 [] rfl rfl (by simp)
+  simpa [scriptSt] using this
+
+/-- what the retry loop over the productions of an abstract class can return: a value created
+for a production that the decider's depth filter let through -/
+theorem createAbstract_inv (g : Grammar) (dec : Decider) (hk : dec.kind.depthLimited = true) :
+    ∀ (fuel n : Nat) (prods : List Nat) (ctx : Ctx) (s s' : SynSt) (v : Val),
+    createAbstract g dec fuel n prods ctx s = .ok v s' →
+    ∃ p ∈ prods, fits g dec ctx (.cls p) = true ∧ ∃ f s1 s2 v0,
+      createNode g dec f (.cls p) ⟨ctx.depth, ctx.exp + 1⟩ [] s1 = .ok v0 s2 ∧
+      v = v0.setCtx ctx.depth ctx.exp
+  | 0, n, prods, ctx, s, s', v, h => by
+    rw [createAbstract] at h; exact absurd h (throwE_not_ok _ _ _ _)
+  | fuel + 1, n, prods, ctx, s, s', v, h => by
+    rw [createAbstract] at h
+    simp only at h
+    split at h
+    · cases h
+    · cases hc : chooseProd g dec (.cls n) (prods.map Ty.cls) ctx s with
+      | err e s1 => rw [hc] at h; cases h
+      | ok rule s1 =>
+        rw [hc] at h
+        simp only at h
+        obtain ⟨hmem, hfit⟩ := Depth.chooseProd_fits g dec _ _ ctx s s1 rule hk hc
+        obtain ⟨p, hp, rfl⟩ := List.mem_map.1 hmem
+        cases hn : createNode g dec fuel (.cls p) ⟨ctx.depth, ctx.exp + 1⟩ [] s1 with
+        | ok v1 s2 =>
+          rw [hn] at h
+          simp only at h
+          cases h
+          exact ⟨p, hp, hfit, fuel, s1, _, v1, hn, rfl⟩
+        | err e s2 =>
+          rw [hn] at h
+          cases e with
+          | synthesis =>
+            simp only at h
+            obtain ⟨q, hq, hfq, hrest⟩ := createAbstract_inv g dec hk fuel n _ ctx s2 s' v h
+            exact ⟨q, (List.mem_filter.1 hq).1, hfq, hrest⟩
+          | library => cases h
+          | foreign _ => cases h
+
+/-! ### The witness grammar `A ::= Leaf | Many(xs : Annotated[list[A], ListSizeBetween(0, 1)])` -/
+
+def wSpec : GrammarSpec :=
+  { classes := [⟨"A", true, none, []⟩, ⟨"Leaf", false, some 0, []⟩,
+                ⟨"Many", false, some 0, [("xs", .ann (.list (.cls 0)) (.listSize 0 1))]⟩],
+    start := 0, considered := [1, 2] }
+
+def wG : Grammar := analyse wSpec
+
+/-! ### An example grammar for the non-vacuity checks:
+`E ::= Lit(v : IntRange(0,1)) | Add(l : E, r : E) | Seq(xs : ListSizeBetween(1,2) of E, b : bool)
+     | Opt(u : Union[E, IntList([7])], t : tuple[bool, VarRange(["x","y"])])` -/
+
+def exLSpec : GrammarSpec :=
+  { classes := [⟨"E", true, none, []⟩,
+                ⟨"Lit", false, some 0, [("v", .ann .int (.intRange 0 1))]⟩,
+                ⟨"Add", false, some 0, [("l", .cls 0), ("r", .cls 0)]⟩,
+                ⟨"Seq", false, some 0, [("xs", .ann (.list (.cls 0)) (.listSize 1 2)), ("b", .bool)]⟩,
+                ⟨"Opt", false, some 0, [("u", .union [.cls 0, .ann .int (.intList [7])]),
+                                         ("t", .tuple [.bool, .ann .str (.varRange ["x", "y"])])]⟩],
+    start := 0, considered := [1, 2, 3, 4] }
+
+def exLG : Grammar := analyse exLSpec
+
+/-- `Seq([Lit(0), Opt(7, (true, "x"))], true)` -/
+def exLV : Val :=
+  .node 3 0 0 [.list 0 0 [.node 1 0 0 [.int 0], .node 4 0 0 [.int 7, .tuple [.bool true, .str "x"]]],
+    .bool true]
+
+def erasedResultIs (r : Res Val) (v : Val) : Bool :=
+  match r with
+  | .ok v' _ => v'.erase == v
+  | .err _ _ => false
+
+theorem mem_of_any_beq (l : List Val) (v : Val) (h : (l.any (· == v)) = true) : v ∈ l := by
+  obtain ⟨y, hy, hyv⟩ := List.any_eq_true.1 h
+  rw [← (val_beq_iff y v).1 hyv]; exact hy
 
 end GEVerif.Language
